@@ -38,6 +38,7 @@ func init() {
 	Plans["C01"].QuickSec = 600
 	Plans["C03"].QuickSec = 420
 	Plans["C04"].QuickSec = 300
+	Plans["C08"].QuickSec = 300
 	Plans["C12"].QuickSec = 300
 	Plans["C15"].QuickSec = 300
 	Plans["C10"].QuickSec = 300
@@ -462,10 +463,6 @@ func RunCheck(cfg *CheckConfig) *CheckOutcome {
 		opts := ExploreOpts{Workers: cfg.Workers, Tier: cfg.Tier, Deadline: time.Now().Add(share), MaxPaths: plan.MaxPaths,
 			PanicIsFinding: plan.Panic, SharedIsFinding: plan.Shared, CostIsFinding: plan.Cost, BudgetIsFinding: plan.Cost, SolverName: cfg.SolverName,
 			CrossSolver: "z3-new", CrossEvery: crossEvery(cfg.Tier), StopAfter: cfg.StopAfter}
-		if cfg.StopAfter > 0 && len(allFindings) >= cfg.StopAfter {
-			incomplete = append(incomplete, h)
-			continue
-		}
 		rep := w.Explore(h, opts)
 		reports = append(reports, rep)
 		fmt.Println(rep.Summary())
